@@ -98,7 +98,7 @@ SigEntry(py, role, target, ctype, opt) == [py |-> py, role |-> role, target |-> 
 NoArg == [sup |-> FALSE, leaves |-> <<>>, canon |-> ""]
 
 NoReq == [n |-> 0, method |-> "", path |-> <<>>, query |-> <<>>, headers |-> <<>>, cookies |-> <<>>, ctype |-> "", body |-> "",
-          exc |-> "", msgclass |-> ""]
+          exc |-> "", msgclass |-> "", blame |-> <<>>]
 
 \* ---------------------------------------------------------------------------------------------
 \* Part 2 - the reference and the judge
@@ -132,13 +132,16 @@ ParamArgs(c) == {i \in DOMAIN c.sig : c.sig[i].role = "param" /\ c.sig[i].target
 BodyArgs(c)  == {i \in DOMAIN c.sig : c.sig[i].role = "body"}
 PA(c, i) == c.op.params[c.sig[i].target]
 
+\* (bool / enum values are not unique tokens: they identify an argument only when no other supplied argument has the same JSON)
+UniqueCanon(c, i) == ~\E j \in ParamArgs(c) : j # i /\ c.args[j].sup /\ c.args[j].canon = c.args[i].canon
 \* where on the wire the token of argument i shows up
 Places(c, r, i) ==
   LET p == PA(c, i)  a == c.args[i] IN
   {L \in {"query", "header", "cookie"} :
       \E j \in DOMAIN Entries(r, L) : Holds(p.type, a.leaves, Entries(r, L)[j].v) /\ (L = "header" => Entries(r, L)[j].k \notin DefaultHeaders)}
   \cup (IF \E j \in DOMAIN r.path : Holds(p.type, a.leaves, r.path[j].v) THEN {"path"} ELSE {})
-  \cup (IF p.type \in TokTypes /\ r.body # "" /\ r.body = a.canon THEN {"body"} ELSE {})
+  \cup (IF r.body # "" /\ r.body = a.canon /\ (p.type \in TokTypes \/ UniqueCanon(c, i))     \* the whole body is this argument's JSON
+          THEN {"body"} ELSE {})
 First(S) == CHOOSE x \in S : \A y \in S : LET ord == <<"body", "query", "header", "cookie", "path">> IN
                (CHOOSE m \in DOMAIN ord : ord[m] = x) <= (CHOOSE m \in DOMAIN ord : ord[m] = y)
 
@@ -180,29 +183,40 @@ PathFails(c, r) ==
               ELSE {F("C04.path", [OLoc(c.op, "path") EXCEPT !.observed = r.path[j].c])}
 
 \* the body: content type and canonical content of the supplied body argument; nothing when none is supplied
+CtObs(r) == IF r.ctype = "" THEN "(none)" ELSE r.ctype
 BodyFails(c, r) ==
   LET B == {i \in BodyArgs(c) : c.args[i].sup}
       leaked == \E i \in ParamArgs(c) : c.args[i].sup /\ "body" \in Places(c, r, i) IN
   IF B = {}
     THEN IF r.ctype = "" /\ r.body = "" THEN {}
          ELSE IF leaked THEN {}
-         ELSE IF BodyArgs(c) # {} THEN {F("C04.none_sent", [BLoc(c.op) EXCEPT !.observed = r.ctype])}
-         ELSE {F("C04.body_ctype", [BLoc(c.op) EXCEPT !.observed = r.ctype])}
+         ELSE IF BodyArgs(c) # {} THEN {F("C04.none_sent", [BLoc(c.op) EXCEPT !.observed = CtObs(r)])}
+         ELSE {F("C04.body_ctype", [BLoc(c.op) EXCEPT !.observed = CtObs(r)])}
     ELSE LET i == CHOOSE x \in B : TRUE IN
-         IF r.ctype # c.sig[i].ctype THEN {F("C04.body_ctype", [BLoc(c.op) EXCEPT !.observed = r.ctype])}
+         IF r.ctype # c.sig[i].ctype THEN {F("C04.body_ctype", [BLoc(c.op) EXCEPT !.observed = CtObs(r)])}
          ELSE IF r.body # c.args[i].canon THEN {F("C04.body_json", BLoc(c.op))}
          ELSE {}
 
 \* a declared parameter / body the signature gives the caller no way to pass
+CarrierNames == {"body", "files", "form_data", "bytes_content", "data"}
 NoArgumentFails(c) ==
   {F("C04.no_argument", PLoc(c.op, c.op.params[i])) : i \in Eff(c.op) \ {c.sig[j].target : j \in ParamArgs(c)}}
-  \cup (IF c.op.body.kind # "none" /\ BodyArgs(c) = {} THEN {F("C04.no_argument", BLoc(c.op))} ELSE {})
+  \cup (IF c.op.body.kind # "none" /\ BodyArgs(c) = {}
+          THEN {F("C04.no_argument", [BLoc(c.op) EXCEPT !.observed = IF \E i \in DOMAIN c.op.params : c.op.params[i].name \in CarrierNames
+                                                                      THEN "carrier_name_declared" ELSE ""])}
+          ELSE {})
 
 \* the call raised before anything was sent although the arguments are well-typed: attributed to the arguments the
 \* exception speaks about (header values), else to the arguments without which the same method does send (suspects)
+\* (r.blame: the header entries the as-is model holds responsible, when it predicted the same exception - attribution only)
 Culprits(c, r) ==
-  LET hdr == {i \in ParamArgs(c) : c.args[i].sup /\ PA(c, i).in = "header" /\ PA(c, i).type \in {"int", "bool", "array"}} IN
-  IF r.msgclass = "header_value_not_str" /\ hdr # {} THEN hdr ELSE {i \in ToSet(c.suspects) : i \in ParamArgs(c)}
+  LET typed == {i \in ParamArgs(c) : c.args[i].sup /\ PA(c, i).in = "header" /\ PA(c, i).type \in {"int", "bool", "array"}}
+      hdrs == {i \in ParamArgs(c) : PA(c, i).in = "header"}
+      sus == {i \in ToSet(c.suspects) : i \in ParamArgs(c)} IN
+  IF r.msgclass = "header_value_not_str"
+    THEN IF r.blame # <<>> THEN {i \in ToSet(r.blame) : i \in ParamArgs(c)}
+         ELSE IF typed # {} THEN typed ELSE IF hdrs \cap sus # {} THEN hdrs \cap sus ELSE hdrs
+    ELSE sus
 RaisedFails(c, r) ==
   IF Culprits(c, r) = {} THEN {F("C04.call_raised", [OLoc(c.op, "") EXCEPT !.exc = r.exc, !.msgclass = r.msgclass])}
   ELSE {F("C04.call_raised", [PLoc(c.op, PA(c, i)) EXCEPT !.exc = r.exc, !.msgclass = r.msgclass]) : i \in Culprits(c, r)}
@@ -233,7 +247,7 @@ ExpectedRequest(c) ==
                ELSE [v |-> c.args[CHOOSE i \in PathArgOf(c, c.op.segs[j].v) : TRUE].leaves[1].v, c |-> ""]],
    query |-> ents("query"), headers |-> ents("header"), cookies |-> ents("cookie"),
    ctype |-> IF B = {} THEN "" ELSE c.sig[CHOOSE i \in B : TRUE].ctype,
-   body |-> IF B = {} THEN "" ELSE c.args[CHOOSE i \in B : TRUE].canon, exc |-> "", msgclass |-> ""]
+   body |-> IF B = {} THEN "" ELSE c.args[CHOOSE i \in B : TRUE].canon, exc |-> "", msgclass |-> "", blame |-> <<>>]
 
 \* ---------------------------------------------------------------------------------------------
 \* Part 3a - the signature the generator derives (parameter_processor / signature_generator / overload_generator)
@@ -362,7 +376,7 @@ UrlPath(c, e) == [j \in DOMAIN c.op.segs |->
 DictOf(c, e, L) ==
   LET idx == SigIdx(c, L)
       keep == SelectSeq(idx, LAMBDA i : PA(c, i).required \/ Look(e, c.sig[i].py).k # "none") IN
-  [k |-> "dict", i |-> 0, ents |-> [j \in DOMAIN keep |-> [name |-> PA(c, keep[j]).name, lname |-> PA(c, keep[j]).lname,
+  [k |-> "dict", i |-> 0, ents |-> [j \in DOMAIN keep |-> [name |-> PA(c, keep[j]).name, lname |-> PA(c, keep[j]).lname, idx |-> keep[j],
                                                           val |-> [Ser(Look(e, c.sig[keep[j]].py)) EXCEPT !.ents = <<>>]]]]
 
 S0(c) == [pc |-> "process", env |-> Env0(c), req |-> NoReq]
@@ -434,7 +448,9 @@ StepSend(c, s) ==
       ctype == IF Fixed THEN c.sig[bv.i].ctype ELSE BodyCtype(c, local)
       badHdr == h.k = "dict" /\ \E j \in DOMAIN h.ents : ~HeaderStr(c, h.ents[j].val) IN
   IF multi /\ ~hasBody THEN [s EXCEPT !.pc = "judge", !.req = [NoReq EXCEPT !.exc = "ValueError", !.msgclass = "no_content_argument"]]
-  ELSE IF badHdr THEN [s EXCEPT !.pc = "judge", !.req = [NoReq EXCEPT !.exc = "TypeError", !.msgclass = "header_value_not_str"]]
+  ELSE IF badHdr THEN [s EXCEPT !.pc = "judge", !.req = [NoReq EXCEPT !.exc = "TypeError", !.msgclass = "header_value_not_str",
+                                                                     !.blame = [j \in DOMAIN SelectSeq(h.ents, LAMBDA x : ~HeaderStr(c, x.val)) |->
+                                                                                  SelectSeq(h.ents, LAMBDA x : ~HeaderStr(c, x.val))[j].idx]]]
   ELSE [s EXCEPT !.pc = "judge",
                  !.req = [s.req EXCEPT !.n = 1, !.method = c.op.method,
                                        !.query = DictEntries(c, q, "query"), !.headers = DictEntries(c, h, "header"),
@@ -475,7 +491,8 @@ IsFirstPlan(c) == LET P == Plans(c.op, c.sig) IN \A T \in P : T = c.plan \/ Less
 Process ==
   /\ pc = "process" /\ Apply
   /\ (Emit /\ IsFirstPlan(call)) =>
-        PrintT("SCEN " \o ToJson([op |-> call.op, dead |-> Dead(call.sig), sig |-> call.sig]))
+        PrintT("SCEN " \o ToJson([op |-> call.op, dead |-> Dead(call.sig), sig |-> call.sig,
+                                   raises |-> ~Dead(call.sig) /\ Run(call).req.exc # ""]))   \* packing hint: the least call sends nothing
 BindPath   == pc = "path" /\ Apply
 BindQuery  == pc = "query" /\ Apply
 BindHeader == pc = "header" /\ Apply
